@@ -141,6 +141,8 @@ def main():
                     print("%-8s %s  (no check yet)" % (mid, prop))
                     continue
                 c, lines, t = run_check(prop, d, tier, seed)
+                if c == 1 and not any(l.startswith("VIOLATION") for l in lines):
+                    c = 2
                 verdict = "CAUGHT" if c == 1 else ("INFRA" if c == 2 else "MISSED")
                 print("%-8s %s %s %.1fs %s" % (mid, prop, verdict, t, " | ".join(lines[:2])[:300]))
                 if c != 1:
